@@ -442,7 +442,10 @@ impl Lowerer<'_, '_> {
                 })
                 .collect::<Option<Vec<_>>>()
             else {
-                // If one of the items is uninhabited then we don't have to do anything here
+                // If one of the items is uninhabited then this variant can
+                // never occur, but its block still has to exist because the
+                // switch above refers to it.
+                self.new_block(variant_lbl);
                 self.emit(Instruction::Return(Some(
                     IrValue::Bool(true).into(),
                 )));
